@@ -6,7 +6,7 @@
     volume table, file table, naming, pairing) is carried by the end-to-end correspondence:
     akai_export against the real `export` on every generated image. *)
 From SE Require Import Base Codecs Fat Cue Names Transcode Stream FatProofs StreamProofs
-     TranscodeProofs TranscodeUnbounded NamesProofs AkaiImage AkaiProofs.
+     TranscodeProofs TranscodeUnbounded NamesProofs AkaiChainProofs AkaiImage AkaiProofs.
 
 (** A file read the way the real code reads it - StreamWrapper(size) over the sector-chained
     Segment over the partition window over the image file - is a well-formed view (so the C08
@@ -40,6 +40,21 @@ Proof.
   now apply file_view_wf_lemma.
 Qed.
 Print Assumptions akai_file_reads_exact.
+
+(** Following the file's sector chain through the partition's segment allocation table: for the
+    11386 raw SAT words of a partition, ANY chain found by following the raw words from the
+    file's first sector to an end-of-chain mark - its sectors in any order (contiguous,
+    fragmented, backwards), each linked from exactly one place, whatever else the table holds -
+    is what the decoded table resolves, so the file's bytes are those sectors in chain order
+    (unbounded theorem akai_decode_chain of C07 instantiated at the real table size). *)
+Theorem akai_chain_to_content :
+  forall block sat pc s c,
+    Forall (fun w => 0 <= w < 65536) block -> zlen block = SAT_ENTRIES ->
+    akai_decode block = Ok sat ->
+    raw_chain (S (length block)) block [] s = Some c -> linked_once block c = true ->
+    get_segment pc sat s = Ok (segment_content pc c).
+Proof. exact akai_chain_to_content_lemma. Qed.
+Print Assumptions akai_chain_to_content.
 
 (** The data window of a sample: StreamOffset(140 + 2*start, 2*(end-start)) over that file
     holds exactly the 16-bit words between the start and end markers - also when the file
